@@ -24,7 +24,7 @@ class C08(Prop):
                 "NV.C08.lookup_unique_live_reachable", "NV.C08.inventories_forest", "NV.C08.destructed_never_visible",
                 "NV.C08.destructed_never_called", "NV.C08.destructed_never_moved_into",
                 "NV.C08.remove_hash_precondition", "NV.C08.remove_hash_absent_drops_chain", "NV.C08.unlink_preserves",
-                "NV.C08.superWalk_clear", "NV.C08.acyclic_redirect", "NV.C08.init_inv"]
+                "NV.C08.no_dangling", "NV.C08.superWalk_clear", "NV.C08.acyclic_redirect", "NV.C08.init_inv"]
     consts = [("oDestructed", "O_DESTRUCTED"), ("oEnableCommands", "O_ENABLE_COMMANDS"), ("oClone", "O_CLONE")]
     const_headers = ["lpc/object.h"]
     quick_n = 700
@@ -214,7 +214,11 @@ class C08(Prop):
             if rng.chance(1, 12):
                 body.append("gc")
             else:
-                body.append("t " + self.gen_op(rng, st, self.OPS))
+                op = self.gen_op(rng, st, self.OPS)
+                body.append("t " + op)
+                if op[:2] in ("ld", "cl") and rng.chance(1, 3):
+                    # command-enable the (probable) new object so that later moves fan out init() calls
+                    body.append("t ec,o%d" % rng.range(max(2, st["top"] - 1), st["top"] + 1))
             if every:
                 body += ["snap", "probe"]
             elif rng.chance(1, 6):
